@@ -1161,6 +1161,97 @@ Proof.
       exists l2. eapply lexes_app; [|exact Hl2]. rewrite app_nil_r. exact Hl1.
 Qed.
 
+(* ---- a tag cut by the end of input after its name or an attribute, possibly inside whitespace (tail) ---------------------- *)
+Lemma lexes_cut_tag d l pre tname tattrs tail :
+  at_input d l pre (60 :: tname ++ concat (map attr_bytes tattrs) ++ tail ++ []) -> intag l = false -> rawtag l = 0 ->
+  (exists c nm, tname = c :: nm /\ is_letter c = true) -> Forall namechar tname ->
+  (exists h, to_hash (map lower tname) = Ok h /\ is_xml_hash h = false) -> all_ws tail -> wf_attrs tattrs tail ->
+  exists l', lexes d l pre (60 :: tname ++ concat (map attr_bytes tattrs)) (tail ++ [])
+               (mkObs StartTagT (60 :: map lower tname) (map lower tname) [] :: map attr_obs tattrs) l' /\ intag l' = true.
+Proof.
+  intros Hat Hit Hraw Hn1 Hn2 (h & Hh & Hxml) Htail Hattrs.
+  destruct (at_input_buflen _ _ _ _ Hat) as [Hbl Hpre0].
+  assert (Hshape : forall attrs', wf_attrs attrs' tail -> tagrest_shape ((concat (map attr_bytes attrs') ++ tail) ++ [])).
+  { intros attrs' Hw'. rewrite app_nil_r. destruct attrs' as [|a attrs''].
+    - exists tail, []. split; [cbn [map concat app]; rewrite app_nil_r; reflexivity|]. split; [exact Htail|]. right; right; right. reflexivity.
+    - cbn [wf_attrs] in Hw'. destruct Hw' as [Ha _]. cbn [map concat].
+      assert (Hk : forall w k tl, w <> [] -> all_ws w -> k <> [] -> Forall keychar k -> tagrest_shape ((w ++ k ++ tl))).
+      { intros w k tl Hw1 Hw2 Hk1 Hk2. exists w, (k ++ tl). split; [reflexivity|]. split; [exact Hw2|]. left. split; [exact Hw1|].
+        destruct k as [|c k']; [congruence|]. inversion Hk2; subst. exists c, (k' ++ tl). split; [reflexivity|assumption]. }
+      destruct a as [w k|w k w2 w3 v]; cbn [attr_bytes wf_attr] in *.
+      + destruct Ha as (A1 & A2 & A3 & A4). rewrite <- !app_assoc. apply Hk; assumption.
+      + destruct Ha as (A1 & A2 & A3 & A4 & _). rewrite <- !app_assoc. apply Hk; assumption. }
+  assert (Hat1 : at_input d l pre (60 :: tname ++ concat (map attr_bytes tattrs) ++ tail ++ [])).
+  { exact Hat. }
+  pose proof (Hshape tattrs Hattrs) as Hsh0. rewrite <- app_assoc in Hsh0.
+  destruct (next_starttag d l pre tname (concat (map attr_bytes tattrs) ++ tail ++ []) h Hat1 Hit Hraw Hn1 Hn2 (shape_tag_stop _ Hsh0) Hh Hxml)
+    as (l1 & Hnx & Htx & Hb & Hi1 & Hr1 & _).
+  pose proof (len_nonneg tname).
+  assert (Hlex1 : lexes d l pre (60 :: tname) (concat (map attr_bytes tattrs) ++ tail ++ [])
+                    [mkObs StartTagT (60 :: map lower tname) (map lower tname) []] l1).
+  { eapply lexes_one; [exact Hat1|exact Hnx|cbn [so sn]; rewrite len_cons; lia|].
+    set (tl := concat (map attr_bytes tattrs) ++ tail ++ []) in *.
+    assert (Hbl1 : len (lbuf (lz l)) = len pre + (1 + len tname + len tl) + 1).
+    { destruct (at_input_buflen _ _ _ _ Hat1) as [E _]. rewrite E, len_cons, len_app. lia. }
+    pose proof (len_nonneg tl).
+    cbn [observe]. rewrite Htx, Hb. cbn [opt_bytes]. change (StartTagT =? AttributeT) with false. f_equal.
+    - replace (mkSl (len pre + 1) (len tname)) with (mkSl (len pre + 1) (1 + len tname - 1)) by (f_equal; lia).
+      rewrite view_lower_middle by lia.
+      rewrite (at_input_view0 d l pre _ 1 Hat1) by (rewrite ?len_cons; pose proof (len_nonneg (tname ++ tl)); lia).
+      replace (1 + len tname - 1) with (len tname) by lia.
+      rewrite (at_input_view d l pre _ 1 (len tname) Hat1) by (rewrite ?len_cons, ?len_app; lia).
+      replace (1 + len tname - (1 + len tname)) with 0 by lia.
+      rewrite (at_input_view d l pre _ (1 + len tname) 0 Hat1) by (rewrite ?len_cons, ?len_app; lia).
+      rewrite slice_zero_len, app_nil_r.
+      replace (slice (60 :: tname ++ tl) 1 (1 + len tname)) with tname by (symmetry; exact (slice_mid [60] tname tl)).
+      change (slice (60 :: tname ++ tl) 0 1) with [60]. reflexivity.
+    - rewrite view_bytes_lower_view by (cbn [so sn]; lia).
+      rewrite (at_input_view d l pre _ 1 (len tname) Hat1) by (rewrite ?len_cons, ?len_app; lia).
+      exact (f_equal (map lower) (slice_mid [60] tname tl)). }
+  assert (Hat2 : at_input d l1 (pre ++ 60 :: tname) (concat (map attr_bytes tattrs) ++ tail ++ [])) by (destruct Hlex1 as (tr & _ & _ & _ & A); exact A).
+  destruct (lexes_attrs tattrs d l1 (pre ++ 60 :: tname) tail [] Hat2 Hi1 Hattrs (or_intror eq_refl) Hshape) as (l2 & Hlex2 & Hi2 & Hr2).
+  exists l2. split; [|exact Hi2].
+  change (60 :: tname ++ concat (map attr_bytes tattrs)) with ((60 :: tname) ++ concat (map attr_bytes tattrs)).
+  change (mkObs StartTagT (60 :: map lower tname) (map lower tname) [] :: map attr_obs tattrs)
+    with ([mkObs StartTagT (60 :: map lower tname) (map lower tname) []] ++ map attr_obs tattrs).
+  eapply lexes_app; [exact Hlex1|]. exact Hlex2.
+Qed.
+
+(* at the end of input inside a tag, after whitespace: the end-of-input report, Text() empty *)
+Lemma next_intag_eof d l pre tws : at_input d l pre tws -> intag l = true -> all_ws tws ->
+  exists l', next no_tmpl l = Ok (ErrorT, None, l') /\ ltext l' = None.
+Proof.
+  intros Hat Hit Hws. pose proof (at_input_reads _ _ _ _ Hat) as Hr.
+  assert (Hr' : reads (lz l) (tws ++ [])) by (rewrite app_nil_r; exact Hr).
+  unfold next. cbn [lz rawtag intag lerr ltext lattr lhas]. rewrite Hit. unfold next_intag. cbn [lz rawtag intag lerr ltext lattr lhas].
+  rewrite (ws_loop_reads _ tws [] Hr' Hws (or_introl eq_refl)). cbn [rbind].
+  destruct (reads_end _ _ Hr) as [Hp _]. rewrite pkr_mv0. unfold pkr. rewrite Hp. cbn [opt_res rbind].
+  rewrite (reads_eof0_end _ _ Hr). eexists. split; reflexivity.
+Qed.
+
+(* complete constructs followed by more input that starts a tag *)
+Lemma lexes_doc_open items : forall d l pre rest, at_input d l pre (doc_bytes items ++ rest) -> intag l = false -> rawtag l = 0 -> lerr l = false ->
+  wf_doc items -> Forall (fun i => is_plain i = false) items -> tag_start rest ->
+  exists l', lexes d l pre (doc_bytes items) rest (doc_obs items) l' /\ intag l' = false /\ rawtag l' = 0 /\ lerr l' = false.
+Proof.
+  induction items as [|i items IH]; intros d l pre rest Hat Hit Hraw Hlerr Hwf Hnp Hts.
+  - exists l. split; [apply lexes_nil; exact Hat|tauto].
+  - cbn [wf_doc] in Hwf. destruct Hwf as (Hi & Hnt & Hlast & Hrest). inversion Hnp as [|? ? Hpi Hnp']; subst.
+    unfold doc_bytes, doc_obs in *. cbn [map concat] in *. fold (doc_bytes items) in *. fold (doc_obs items) in *.
+    assert (Hfollow : is_text i = true -> doc_bytes items ++ rest = [] \/ tag_start (doc_bytes items ++ rest)).
+    { intros Ht. right. specialize (Hnt Ht). destruct items as [|j items']; [exact Hts|].
+      cbn [wf_doc] in Hrest. destruct Hrest as (Hj & _). unfold doc_bytes. cbn [map concat]. rewrite <- app_assoc. apply nontext_tag_start; assumption. }
+    assert (Hlast' : is_plain i = true -> doc_bytes items ++ rest = []) by (intros Hpl; congruence).
+    assert (Hat' : at_input d l pre (item_bytes i ++ doc_bytes items ++ rest)) by (rewrite app_assoc; exact Hat).
+    destruct (lexes_item i d l pre (doc_bytes items ++ rest) Hat' Hit Hraw Hlerr Hi Hfollow Hlast') as (l1 & Hl1 & Hst1).
+    destruct (Hst1 Hpi) as [Hi1 Hr1].
+    assert (Hat1 : at_input d l1 (pre ++ item_bytes i) (doc_bytes items ++ rest)) by (destruct Hl1 as (tr & _ & _ & _ & A); exact A).
+    assert (Hlerr1 : lerr l1 = false).
+    { rewrite (lexes_lerr _ _ _ _ _ _ _ (proj1 (proj1 Hat)) Hl1 (item_obs_noerr i)). exact Hlerr. }
+    destruct (IH d l1 (pre ++ item_bytes i) rest Hat1 Hi1 Hr1 Hlerr1 Hrest Hnp' Hts) as (l2 & Hl2 & Hf2).
+    exists l2. split; [|exact Hf2]. eapply lexes_app; [exact Hl1|exact Hl2].
+Qed.
+
 Lemma at_input_init d : at_input d (new_lexer d) [] d.
 Proof. split; [apply html_inv_init|]. split; [reflexivity|]. split; reflexivity. Qed.
 
@@ -1180,6 +1271,33 @@ Proof.
   pose proof (safe_eq _ _ _ (next_spec no_tmpl l' cfg_ok_no_tmpl Hl) Hn2) as Hs. cbn [step_post] in Hs.
   destruct Hs as (_ & (Vt & _) & _). destruct (ltext l2) as [t|]; [|reflexivity]. cbn [opt_within opt_bytes] in *.
   unfold view_bytes, slice, firstz. replace (so t + sn t - so t) with 0 by lia. reflexivity.
+Qed.
+
+(* complete constructs, then a tag that the end of input cuts inside the whitespace after its name or after an attribute *)
+Lemma html_wellformed_cut_ws_proof : forall items name attrs tws, wf_doc items -> Forall (fun i => is_plain i = false) items ->
+  (exists c nm, name = c :: nm /\ is_letter c = true) -> Forall namechar name ->
+  (exists h, to_hash (map lower name) = Ok h /\ is_xml_hash h = false) -> all_ws tws -> wf_attrs attrs tws ->
+  let d := doc_bytes items ++ 60 :: name ++ concat (map attr_bytes attrs) ++ tws in
+  let os := doc_obs items ++ mkObs StartTagT (60 :: map lower name) (map lower name) [] :: map attr_obs attrs in
+  exists tr, run no_tmpl (length os + 1) (new_lexer d) = Ok tr /\ map observe tr = os ++ [mkObs ErrorT [] [] []].
+Proof.
+  intros items name attrs tws Hwf Hnp Hn1 Hn2 Hhx Hws Hattrs d os.
+  set (X := 60 :: name ++ concat (map attr_bytes attrs)).
+  assert (Ed : d = doc_bytes items ++ X ++ tws ++ []).
+  { unfold d, X. rewrite app_nil_r. cbn [app]. rewrite <- app_assoc. reflexivity. }
+  assert (Hts : tag_start (X ++ tws ++ [])).
+  { destruct Hn1 as (c & nm & -> & Hl). unfold X. cbn [app]. eexists c, _. split; [reflexivity|left; exact Hl]. }
+  assert (Hat0 : at_input d (new_lexer d) [] (doc_bytes items ++ X ++ tws ++ [])) by (rewrite <- Ed; apply at_input_init).
+  destruct (lexes_doc_open items d (new_lexer d) [] (X ++ tws ++ []) Hat0 eq_refl eq_refl eq_refl Hwf Hnp Hts) as (l1 & Hl1 & Hi1 & Hr1 & _).
+  assert (Hat1 : at_input d l1 (doc_bytes items) (60 :: name ++ concat (map attr_bytes attrs) ++ tws ++ [])).
+  { destruct Hl1 as (tr & _ & _ & _ & A). cbn [app] in A. unfold X in A. cbn [app] in A. rewrite <- app_assoc in A. exact A. }
+  destruct (lexes_cut_tag d l1 (doc_bytes items) name attrs tws Hat1 Hi1 Hr1 Hn1 Hn2 Hhx Hws Hattrs) as (l2 & Hl2 & Hi2).
+  fold X in Hl2.
+  pose proof (lexes_app d (new_lexer d) [] (doc_bytes items) X (tws ++ []) _ _ l1 l2 Hl1 Hl2) as (tr & Hr & Ho & Hf & Hat).
+  rewrite app_nil_r in Hat.
+  destruct (next_intag_eof d l2 _ tws Hat Hi2 Hws) as (l3 & Hn3 & Htx3).
+  exists (tr ++ [(ErrorT, None, l3)]). fold os in Hr, Ho. rewrite run_app, Hr. cbn [rbind]. rewrite Hf. cbn [run]. rewrite Hn3. cbn [rbind].
+  split; [reflexivity|]. rewrite map_app, Ho. f_equal. cbn [map observe opt_bytes]. rewrite Htx3. reflexivity.
 Qed.
 
 (* non-vacuity: <!DOCTYPE html><a B='c' d>x</A ><STYLE>p<q</style ><svg><g/></SVG > *)
@@ -1349,4 +1467,29 @@ Proof.
   split; [discriminate|]. split; [repeat constructor|]. split; [discriminate|]. split; [repeat constructor; vm_compute; repeat split; discriminate|].
   split; [constructor|]. split; [constructor|]. right. right. split; [|reflexivity].
   exists 34, [99; 32; 100]. split; [reflexivity|]. split; [tauto|repeat constructor; discriminate].
+Qed.
+
+(* non-vacuity of the cut inside trailing whitespace: <p>x</p><a B=c followed by a blank and a line feed *)
+Example html_wellformed_cut_ws_nonvacuous :
+  let items := [ ITag [112] [] [] false; IText [120]; IEnd [112] [] ] in
+  let attrs := [ AVal [32] [66] [] [] [99] ] in
+  (wf_doc items /\ Forall (fun i => is_plain i = false) items /\ all_ws [32; 10] /\ wf_attrs attrs [32; 10]) /\
+  exists tr, run no_tmpl 7 (new_lexer (doc_bytes items ++ 60 :: [97] ++ concat (map attr_bytes attrs) ++ [32; 10])) = Ok tr /\
+             map observe tr = doc_obs items ++ mkObs StartTagT [60; 97] [97] [] :: map attr_obs attrs ++ [mkObs ErrorT [] [] []].
+Proof.
+  split; [|eexists; split; vm_compute; reflexivity].
+  split; [|split; [repeat constructor|split; [repeat constructor|]]].
+  - cbn [wf_doc is_text is_plain].
+    split.
+    { cbn [wf_item]. split; [eexists _, _; split; reflexivity|]. split; [repeat constructor; vm_compute; repeat split; discriminate|].
+      split; [eexists; split; vm_compute; reflexivity|]. split; [constructor|exact I]. }
+    split; [discriminate|]. split; [discriminate|].
+    split; [cbn [wf_item]; split; [discriminate|repeat constructor; discriminate]|]. split; [intros _; reflexivity|]. split; [discriminate|].
+    split; [cbn [wf_item]; split; [eexists _, _; split; reflexivity|]; split; [repeat constructor; vm_compute; reflexivity|constructor]|].
+    split; [discriminate|]. split; [discriminate|exact I].
+  - cbn [wf_attrs wf_attr]. split; [|exact I].
+    split; [discriminate|]. split; [repeat constructor|]. split; [discriminate|]. split; [repeat constructor; vm_compute; repeat split; discriminate|].
+    split; [constructor|]. split; [constructor|]. left.
+    split; [eexists _, _; split; [reflexivity|split; discriminate]|]. split; [repeat constructor; vm_compute; repeat split; discriminate|].
+    right. eexists _, _. split; [reflexivity|left; reflexivity].
 Qed.
